@@ -46,7 +46,7 @@ RULE = (
 EXHAUSTIVE_NOTE = ("every full rectangular layout 1-4 x 4-40 (natural trace order) goes through cadzow.denoise at rank "
                    "1 (plane wave + noise) in the quick tier, and at rank full (random spectra) and every rank 1..full "
                    "(k = rank plane waves + noise) in the thorough tier; rolling_window: every window kind x odd length 3..51 x "
-                   "3 signal lengths; lp: every length 1..200 x 4 paddings. Data, trace order and all other "
+                   "3 signal lengths; lp: every length 1..200 x 4 paddings; svd_denoise_npx: every (nc, rank) with 1 <= rank <= nc <= 160 on data of exactly that rank. Data, trace order and all other "
                    "sub-properties are sampled.")
 ASSUMPTIONS = [
     "spike sample arrays are sorted in time (spike trains); unsorted arrays and sorters without any spike are not generated",
@@ -246,6 +246,9 @@ def enum_shards(tier):
     out = [{"what": "cadzow", "tier": tier, "layouts": layouts[i::n]} for i in range(n)]
     out.append({"what": "rolling"})
     out.append({"what": "lp"})
+    # plain SVD: every (channel count, rank) pair with 1 <= rank <= nc <= 160 (= the largest 4 x 40 layout), data of
+    # exactly that rank, requested rank == data rank (the per-collection rank is computed in floating point)
+    out.extend({"what": "svd", "ncs": list(range(1 + i, 161, 8))} for i in range(8))
     return out
 
 
@@ -267,6 +270,11 @@ def enum_cases(desc):
             ks = [1] if desc["tier"] == "quick" else range(1, full + 1)
             for k in ks:
                 yield _enum_cadzow_case(nx, ny, "waves", k, seed + 7919 * k)
+    elif desc["what"] == "svd":
+        for nc in desc["ncs"]:
+            for k in range(1, nc + 1):
+                yield {"fn": "svd", "nc": nc, "ns": nc + 5, "mode": "lowrank", "dtype": "f8", "scale": 1.0,
+                       "seed": 100003 * nc + k, "k": k, "r_off": 0, "sig_exp": -5, "noise": False}
     elif desc["what"] == "rolling":
         for win in WINDOWS:
             for wl in range(3, 52, 2):
@@ -565,7 +573,7 @@ def _run_svd(case, ctx):
     ctx.stat("svd_identity_relerr" + sfx, err)
     ctx.check(err <= tol, "C20.svd_identity_lowrank",
               lambda: f"{nc}x{ns} {case['dtype']} of rank {k}, requested rank {r}: output differs by {err:.3g} of max|input|")
-    if k < full:
+    if k < full and case.get("noise", True):
         sig = 10.0 ** (case["sig_exp"] / 10.0) * _fro(clean64) / np.sqrt(clean64.size)
         e_out = e_in = 0.0
         for _ in range(NOISE_REP):
